@@ -102,7 +102,7 @@ check('C13', 'exploration',
       'log) are judged: exact expected partition of markers into files with document order and footnotes last, issued '
       'names distinct and clean, names and marker->file map identical in all three settings. Renderers HTML5 (two themes), '
       'XHTML and Text; parts, abstract, table of contents, appendix; footnote shapes (\\footnotetext with and without mark, '
-      'in quotes, identical texts); tables wide enough to be folded by the Text renderer (head markers ordered, tail markers counted); templates with explicit extensions, repeated static names, labels colliding with '
+      'in quotes, identical texts); tables wide enough to be folded by the Text renderer (head markers ordered, tail markers counted); hyperref target/link-only paragraphs; templates with explicit extensions, repeated static names, labels colliding with '
       'template-formed names, and without a numbered fail-safe alternative (then the run must end with the generator\'s error).',
       'Trusted: the generator\'s marker/level bookkeeping (LaTeX nesting by level) and html.parser text extraction. Normal '
       'form: template literals contain no bad-chars other than an explicit .html extension; a raw % in bad-chars is doubled on the command line (option values are %-interpolated). The '
